@@ -14,12 +14,9 @@ fields.
   different goroutines that both hold the mutex, at least one exclusively, are separated by a release of the one and
   an acquisition by the other — the happens-before edge of the Go memory model.
 * `writes_exclusive`, `reads_locked`: on the current tree every write of a mutable field holds its struct's mutex
-  exclusively and every read holds it at least shared — except reads of the election context `kvElection.ctx`.
-* `ctx_unlocked_readers`: the functions that read `kvElection.ctx` without the mutex are exactly the listed ones, all of
-  them bodies of goroutines of a run (tracked by the election's WaitGroup, started after `Start` wrote the field and
-  joined before `StopWithContext` clears it) or connection callbacks that return early unless the instance leads.
-  For those the ordering is by construction (go statement, WaitGroup), not by the mutex: assumption A-run-hb of
-  DESIGN.md, which does not cover a `Start` that follows a stop call that gave up waiting (partial).
+  exclusively and every read holds it at least shared; `ctx_unlocked_readers`: no function reads the election context
+  without the mutex (before the repair of finding R4 twelve functions did: goroutines of an earlier run raced with the
+  `Start` that follows a stop call which gave up waiting).
 The search side is the concurrent API driver under the Go race detector (`harness/race_mode.go`).
 -/
 namespace NLE.Theorems.C20
@@ -28,28 +25,14 @@ open NLE
 /-- Every write of a mutable field holds the owning struct's mutex exclusively. -/
 theorem writes_exclusive : (Gen.lockAccesses.all fun a => !a.write || a.held == 2) = true := by decide +kernel
 
-/-- Every read of a mutable field other than the election context holds the owning struct's mutex. -/
-theorem reads_locked :
-    (Gen.lockAccesses.all fun a => a.write || (a.struct == "kvElection" && a.field == "ctx") || decide (a.held ≥ 1)) = true := by
+/-- Every read of a mutable field holds the owning struct's mutex (shared or exclusive). -/
+theorem reads_locked : (Gen.lockAccesses.all fun a => a.write || decide (a.held ≥ 1)) = true := by decide +kernel
+
+/-- In particular no function reads the election context `kvElection.ctx` without the mutex (goroutines of a run get the
+    context as a parameter or through the locked accessor `runContext`). -/
+theorem ctx_unlocked_readers :
+    ((Gen.lockAccesses.filter fun a => a.struct == "kvElection" && a.field == "ctx" && a.held == 0).map (·.fn)) = [] := by
   decide +kernel
-
-/-- The functions that read the election context without the mutex. -/
-def ctxUnlockedReaders : List String :=
-  ((Gen.lockAccesses.filter fun a => a.struct == "kvElection" && a.field == "ctx" && a.held == 0).map (·.fn)).eraseDups
-
-theorem ctx_unlocked_readers : ctxUnlockedReaders =
-    ["disconnectHandler.handleDisconnect", "disconnectHandler.handleGracePeriodExpired",
-     "kvElection.handleReconnectVerificationFailed", "kvElection.handleValidationFailure",
-     "kvElection.handleHeartbeatFailure", "kvElection.handleHealthCheckFailure", "kvElection.attemptAcquire",
-     "kvElection.becomeLeader", "kvElection.attemptPriorityTakeover", "kvElection.becomeFollower", "kvElection.stepDown",
-     "kvElection.handleWatchEvent"] := by decide +kernel
-
-/-- No method of the public API is among them: API callers always take the mutex to look at the context. -/
-theorem api_reads_ctx_locked :
-    (Gen.lockAccesses.all fun a => !(a.struct == "kvElection" && a.field == "ctx" && a.held == 0) ||
-      !(["kvElection.Start", "kvElection.Stop", "kvElection.StopWithContext", "kvElection.IsLeader", "kvElection.LeaderID",
-         "kvElection.Token", "kvElection.Status", "kvElection.ValidateToken", "kvElection.ValidateTokenOrDemote",
-         "kvElection.OnPromote", "kvElection.OnDemote", "kvElection.handleReconnect"].contains a.fn)) = true := by decide +kernel
 
 /-- The fields the discipline is about (everything else is a sync type or immutable after construction). -/
 theorem mutable_fields : (Gen.lockFields.filter (·.2.2 == "mutable")).map (fun x => (x.1, x.2.1)) =
@@ -59,27 +42,20 @@ theorem mutable_fields : (Gen.lockFields.filter (·.2.2 == "mutable")).map (fun 
      ("natsConnectionMonitor", "cancel"), ("natsConnectionMonitor", "ctx"), ("natsConnectionMonitor", "disconnectHandler"),
      ("natsConnectionMonitor", "reconnectHandler")] := by decide +kernel
 
-/-- Conflicting pairs: any two accesses to the same mutable field other than the election context, at least one of
-    them a write, both hold the struct's mutex and the writer holds it exclusively — the hypotheses of
-    `LockSem.conflicting_accesses_ordered`. -/
+/-- Conflicting pairs: any two accesses to the same mutable field, at least one of them a write, both hold the struct's
+    mutex and the writer holds it exclusively — the hypotheses of `LockSem.conflicting_accesses_ordered`. -/
 theorem conflicting_pairs_protected (a b : Gen.LockAccess) (ha : a ∈ Gen.lockAccesses) (hb : b ∈ Gen.lockAccesses)
-    (hsame : a.struct = b.struct ∧ a.field = b.field) (hctx : ¬ (a.struct = "kvElection" ∧ a.field = "ctx"))
     (hw : a.write = true ∨ b.write = true) :
     a.held ≥ 1 ∧ b.held ≥ 1 ∧ ((a.write = true ∧ a.held = 2) ∨ (b.write = true ∧ b.held = 2)) := by
   have W := List.all_eq_true.mp writes_exclusive
   have R := List.all_eq_true.mp reads_locked
-  have held_of (c : Gen.LockAccess) (hc : c ∈ Gen.lockAccesses) (hcx : ¬ (c.struct = "kvElection" ∧ c.field = "ctx")) : c.held ≥ 1 := by
+  have held_of (c : Gen.LockAccess) (hc : c ∈ Gen.lockAccesses) : c.held ≥ 1 := by
     have w := W c hc
     have r := R c hc
     cases hcw : c.write with
     | true => simp [hcw] at w; omega
-    | false =>
-      simp only [hcw, Bool.false_or, Bool.or_eq_true, Bool.and_eq_true, beq_iff_eq, decide_eq_true_eq] at r
-      rcases r with r | r
-      · exact absurd r hcx
-      · exact r
-  have hbx : ¬ (b.struct = "kvElection" ∧ b.field = "ctx") := by rw [← hsame.1, ← hsame.2]; exact hctx
-  refine ⟨held_of a ha hctx, held_of b hb hbx, ?_⟩
+    | false => simpa [hcw] using r
+  refine ⟨held_of a ha, held_of b hb, ?_⟩
   rcases hw with h | h
   · have w := W a ha; simp [h] at w; exact Or.inl ⟨h, w⟩
   · have w := W b hb; simp [h] at w; exact Or.inr ⟨h, w⟩
